@@ -49,7 +49,7 @@ func (p *Parser) parseImport(parser *Parser) (Node, error) {
 
 			// Expect block end
 			if parser.tokenIndex >= len(parser.tokens) ||
-				(parser.tokens[parser.tokenIndex].Type != TOKEN_BLOCK_END &&
+				(!isBlockEndToken(parser.tokens[parser.tokenIndex].Type) &&
 					parser.tokens[parser.tokenIndex].Type != TOKEN_BLOCK_END_TRIM) {
 				return nil, fmt.Errorf("expected block end token after import statement at line %d", importLine)
 			}
@@ -85,7 +85,7 @@ func (p *Parser) parseImport(parser *Parser) (Node, error) {
 
 	// Expect block end
 	if parser.tokenIndex >= len(parser.tokens) ||
-		(parser.tokens[parser.tokenIndex].Type != TOKEN_BLOCK_END &&
+		(!isBlockEndToken(parser.tokens[parser.tokenIndex].Type) &&
 			parser.tokens[parser.tokenIndex].Type != TOKEN_BLOCK_END_TRIM) {
 		return nil, fmt.Errorf("expected block end token after import statement at line %d", importLine)
 	}
